@@ -47,7 +47,7 @@ func main() {
 		"Non-trivial and distinct = fingerprint of (prior kind, feature set, per-pod port shapes, executed call sequence with outcomes); a case counts only if " +
 		"at least one mapping was set up and removed while another pod's chains or foreign content was present."
 	run.Assume("strict fake (verif/harness/fakes) models iptables 1.8.9 nf_tables for the commands galaxy issues; thorough tier calibrates it against the real tool in a private netns")
-	run.Assume("handler calls are atomic steps: interleavings are explored at whole-call granularity (the order CloseHostports before CleanPortMapping is server.go's)")
+	run.Assume("sequential stage: handler calls are atomic steps, interleavings are explored at whole-call granularity (the order CloseHostports before CleanPortMapping is server.go's); concurrent stage: one opener and one closer goroutine per pod name on one handler, judged only at quiescent points (both stopped, one more CloseHostports returned)")
 	run.Assume("fixed ports come from flock-owned blocks (verif/harness/hostports) and are bind-probed before each case; a port held by a socket that is not one of this process's fds (/proc/net joined with /proc/self/fd) is environment: counted, the case abandoned; a port held by this process after galaxy should have released it is a violation")
 
 	if fl.Replay != "" {
@@ -141,6 +141,11 @@ func main() {
 	}
 	close(jobs)
 	wg.Wait()
+
+	// all sequential cases are done and no process is forked from here to the end of the stage
+	if run.Violations() == 0 {
+		concStage(run, bases, fl.Tier)
+	}
 
 	if fl.Tier == "thorough" {
 		scratch := evid.NewRun(fl.Prop, fl.Tier, fl.Seed, "exploration", "pmsim-calibration-rerun")
@@ -242,6 +247,17 @@ func replay(run *evid.Run, path string) int {
 		return evid.ExitBroken
 	}
 	parts := strings.Split(r.Violation.Case, ":")
+	if len(parts) == 4 && parts[1] == "conc" {
+		// the concurrent stage has no per-case schedule to replay: the stage is re-run as a whole
+		base, ok := hostports.New().Block()
+		if !ok {
+			run.Inconclusive("no free block of fixed host ports")
+			return run.Finish(0)
+		}
+		concStage(run, []int{base}, run.Tier)
+		run.Nontrivial("replay")
+		return run.Finish(1)
+	}
 	if len(parts) != 3 {
 		fmt.Println("bad case id", r.Violation.Case)
 		return evid.ExitBroken
